@@ -289,6 +289,10 @@ def _taint(facts):
 def run(ctx):
     facts = ctx.facts("default")
     n = rule_scope(facts, ctx)
+    from .. import controls
+    controls.expect(ctx, "C15.D1", lambda f, c: rule_scope(f, c), "BadSource", "content - 1 unguarded")
+    controls.expect(ctx, "C15.D2", lambda f, c: rule_scope(f, c), "BadSource", "unwrap on a content-dependent Option")
+    controls.expect(ctx, "C15.D3", lambda f, c: rule_scope(f, c), "BadSource", "table indexed by content")
     ctx.floor("C15.D1", 10, "content-tainted checked arithmetic sites")
     ctx.floor("C15.D2", 5, "content-tainted asserts/unwraps")
     ctx.floor("C15.D3", 10, "content-tainted indexing sites")
